@@ -188,7 +188,7 @@ def _len(ex, args, kwargs, node):
     if isinstance(a, VEmptyList):
         return VInt(0)
     if isinstance(a, VDict):
-        return VInt(L.LInt.len(a.keys))
+        return VInt(a.KL.len(a.keys))
     if isinstance(a, VFalseOr):
         ex.oblige("noraise.len_of_False", node, z3.Not(a.isfalse))
         return _len(ex, [a.val], kwargs, node)
@@ -275,17 +275,17 @@ def _append(ex, l, args, kwargs, node):
 @meth("dict", "values", tb="TB-py")
 def _values(ex, d, args, kwargs, node):
     """list view: len = len(keys), at(i) = val[keys[i]]"""
-    return VList(L.values_of(d.et.sort())(d.keys, d.val), d.et)
+    return VList(L.values_of(d.et.sort(), d.kt.sort())(d.keys, d.val), d.et)
 
 
 @meth("dict", "keys", tb="TB-py")
 def _keys(ex, d, args, kwargs, node):
-    return VList(d.keys, TInt)
+    return d.keylist()
 
 
 @meth("dict", "copy", tb="TB-py")
 def _dcopy(ex, d, args, kwargs, node):
-    return VDict(d.keys, d.val, d.et)
+    return VDict(d.keys, d.val, d.et, d.kt)
 
 
 @meth("rec", "get", tb="TB-py")
